@@ -46,7 +46,13 @@ fn case_t<T: Sc>(rng: &mut Rng, case: u64, out: &mut CaseOut) {
     let (j, h) = oracle_jacobians::<T>(&spec, &sf.alpha, &sf.c);
     let detail = |extra: serde_json::Value| json!({"problem": spec.to_json(), "alpha_hat": sf.alpha, "c_hat": sf.c.d, "nu": sf.nu, "extra": extra});
     // is the value comparison decidable here?
-    let value_ok = cov.all_finite() && matches!(scaled_normal_matrix(&h), Some((_, _, kappa)) if kappa * T::EPS <= 1e-3);
+    let scaled = scaled_normal_matrix(&h);
+    let value_ok = cov.all_finite() && matches!(&scaled, Some((_, _, kappa)) if kappa * T::EPS <= 1e-3);
+    // is the library's covariance itself inside the normal range of the scalar type? (f32 variances of
+    // quantities in tiny units are not: the band, which is of the size of the curve, still has to be right)
+    let (tiny, huge) = if T::IS_F64 { (1e-290, 1e290) } else { (1e-30, 1e30) };
+    let cov_in_range = cov.d.iter().all(|v| *v == 0.0 || (v.abs() > tiny && v.abs() < huge)) && (0..cov.r).all(|i| cov.at(i, i) > tiny);
+    let sigma2 = sf.stats.reduced_chi2().w();
     let ps = p_grid();
     let mut prev: Option<Vec<f64>> = None;
     let covf = cov.fro();
@@ -81,6 +87,7 @@ fn case_t<T: Sc>(rng: &mut Rng, case: u64, out: &mut CaseOut) {
             let q = (1.0 + pt.w()) / 2.0;
             let t = t_quantile(q, sf.nu as f64);
             let mut worst: f64 = 0.0;
+            let mut worst_o: f64 = 0.0;
             for i in 0..sf.n {
                 let ji: Vec<f64> = (0..j.c).map(|k| j.at(i, k)).collect();
                 let cj = cov.mul(&Mat::colvec(&ji));
@@ -88,9 +95,29 @@ fn case_t<T: Sc>(rng: &mut Rng, case: u64, out: &mut CaseOut) {
                 let ref2 = t * t * quad.max(0.0);
                 let jn2 = la::dot(&ji, &ji);
                 let rel = if *p > 0.9999 || *p < 1e-3 { 2e-3 } else { 4e-4 };
-                let tol = rel * ref2 + 64.0 * T::EPS * t * t * jn2 * covf + f64::MIN_POSITIVE;
-                let ratio = (rad[i] * rad[i] - ref2).abs() / tol;
-                worst = worst.max(ratio);
+                if cov_in_range {
+                    let tol = rel * ref2 + 64.0 * T::EPS * t * t * jn2 * covf + f64::MIN_POSITIVE;
+                    let ratio = (rad[i] * rad[i] - ref2).abs() / tol;
+                    worst = worst.max(ratio);
+                }
+                // independent reference: the oracle's own sigma^2 (H^T H)^-1 in f64
+                if let Some((d, g, kappa)) = &scaled {
+                    if sigma2.is_finite() && sigma2 > 0.0 {
+                        let refo2 = t * t * sigma2 * oracle_quadratic_form(d, g, &ji);
+                        let tol_o = (rel + 256.0 * T::EPS * kappa) * refo2 + f64::MIN_POSITIVE;
+                        let r2 = rad[i] * rad[i];
+                        // only where the radius itself is representable in T
+                        if refo2.sqrt() > tiny.sqrt() * 1e3 && refo2.sqrt() < huge.sqrt() {
+                            let ratio_o = (r2 - refo2).abs() / tol_o;
+                            worst_o = worst_o.max(ratio_o);
+                        }
+                    }
+                }
+            }
+            out.ratio("radius_squared_vs_oracle_covariance", worst_o);
+            if worst_o > 1.0 {
+                violation(out, stream, case, format!("band radius is not t·sqrt(j_i^T sigma^2 (H^T H)^-1 j_i) with the oracle's own covariance for p={p}, nu={} (ratio {worst_o:.3e}) [{class}]", sf.nu), detail(json!({"p": p, "radius": rad, "t": t})));
+                return;
             }
             out.ratio("radius_squared_vs_reference", worst);
             if worst > 1.0 {
@@ -123,5 +150,5 @@ pub fn run(ctx: &Ctx) {
     ctx.rule("successful fit_with_statistics results (same three classes as C13; degrees of freedom 1..30 on purpose, weighted and unweighted, f32/f64) x 40 probabilities in (0,1) including 1e-6 and 1-1e-6: length N, every entry finite and >= 0, non-decreasing in p; where the normal matrix is numerically positive definite the squared radius is compared with t_oracle((1+p)/2; N-M-P)^2 · j_i^T Cov j_i using the unweighted oracle Jacobian row and the library's own covariance; p in {0,1,-0.1,1.5,NaN,+-inf} must panic. distinct = problem hash");
     ctx.assume("the oracle's Student-t quantile is the harness's own (incomplete beta + bisection, self-tested against a committed scipy table); relative tolerance 4e-4 absorbs the library's third-party quantile approximation");
     let t = ctx.tier;
-    ctx.run_cases("fits", t.pick(2500, 60000), t.pick(20.0, 200.0), |r, c, o| if c % 4 == 0 { case_t::<f32>(r, c, o) } else { case_t::<f64>(r, c, o) });
+    ctx.run_cases("fits", t.pick(8000, 60000), t.pick(20.0, 200.0), |r, c, o| if c % 4 == 0 { case_t::<f32>(r, c, o) } else { case_t::<f64>(r, c, o) });
 }
